@@ -397,6 +397,16 @@ func registerExternals(e *Engine) {
 		x[n] = flagVal
 	}
 	x["flag.Parse"] = func(p *Path, th *Thread, fr *frame, a []Value) Value { return nil }
+	// expvar: a fresh unpublished variable (the global registry is a sync.Map)
+	for _, n := range []string{"Int", "Float", "String", "Map"} {
+		n := n
+		x["expvar.New"+n] = func(p *Path, th *Thread, fr *frame, a []Value) Value {
+			pkg := p.eng.prog.ImportedPackage("expvar")
+			cell := new(Value)
+			*cell = zero(pkg.Type(n).Type())
+			return cell
+		}
+	}
 	// context deadlines / cancellation: never fire inside the engine (timeouts are
 	// outside every claim); the returned cancel function is a no-op
 	ctxNoop := func(p *Path, th *Thread, fr *frame, a []Value) Value {
